@@ -1,0 +1,45 @@
+//! Verification hook: canonical state fingerprint of a `Handshake` (feature `verif`).
+use super::{Handshake, PeerType, Stage};
+use verif_hooks::push_bytes;
+
+impl Handshake {
+    pub fn verif_fingerprint(&self, out: &mut Vec<u8>) {
+        let Handshake {
+            current_stage,
+            peer_type,
+            command_byte,
+            input_buffer,
+            sent_p1,
+            sent_digest,
+        } = self;
+
+        out.push(match *current_stage {
+            Stage::NeedToSendP0AndP1 => 0,
+            Stage::WaitingForPacket0 => 1,
+            Stage::WaitingForPacket1 => 2,
+            Stage::WaitingForPacket2 => 3,
+            Stage::Complete => 4,
+        });
+        out.push(match *peer_type {
+            PeerType::Server => 0,
+            PeerType::Client => 1,
+        });
+        out.push(*command_byte);
+        push_bytes(out, &input_buffer[..]);
+        push_bytes(out, &sent_p1[..]);
+        push_bytes(out, &sent_digest[..]);
+    }
+
+    /// Number of received-but-unconsumed bytes and the stage number (cheap summary for graphs
+    /// whose nodes are known to share everything else).
+    pub fn verif_stage_and_buffered(&self) -> (u8, usize) {
+        let stage = match self.current_stage {
+            Stage::NeedToSendP0AndP1 => 0,
+            Stage::WaitingForPacket0 => 1,
+            Stage::WaitingForPacket1 => 2,
+            Stage::WaitingForPacket2 => 3,
+            Stage::Complete => 4,
+        };
+        (stage, self.input_buffer.len())
+    }
+}
